@@ -240,7 +240,7 @@ def main(ck):
             cases.append(g.case(fn=fn, level=lv, nowindow=True))
     while len(cases) < n_main:
         cases.append(g.case())
-    side = [g.no_order_each() for _ in range(6 if q else 40)]
+    side = [g.no_order_each() for _ in range(6 if q else 40)] + [g.ratio_zero() for _ in range(4 if q else 24)]
     allc = cases + side
     oracles = oracle_cases()
     answers = drv([GA.request(c) for c in allc] + [GA.request(c) for c in oracles])
